@@ -126,6 +126,9 @@ def _fresh_copy(v, memo):
             return v
 
 
+_EDIT_CLOCK = [1_600_000_000]
+
+
 class World:
     def __init__(self, scratch):
         import dds  # noqa
@@ -224,6 +227,10 @@ class Prog:
                     os.makedirs(os.path.dirname(p), exist_ok=True)
                     with open(p, "w") as f:
                         f.write(text)
+                    # every edit happens at a later time than the one before (seconds apart, like a user's): two writes within
+                    # the granularity of the file system's clock would otherwise look like no edit to anything that trusts mtime
+                    _EDIT_CLOCK[0] += 7
+                    os.utime(p, ns=(_EDIT_CLOCK[0] * 10 ** 9, _EDIT_CLOCK[0] * 10 ** 9))
                     self.files[rel] = text
                     changed.append(rel)
         self.variant = dict(variant)
@@ -254,8 +261,8 @@ class Prog:
         return importlib.import_module(full)
 
     def reload_all(self):
-        """in-process redefinition: re-execute the modules in dependency order."""
-        linecache.clearcache()
+        """in-process redefinition: re-execute the modules in dependency order (what a user's importlib.reload / autoreload does:
+        the line cache is NOT cleared by hand - finding the new text is the library's business)."""
         importlib.invalidate_caches()
         order = list(self.spec["modules"])
         if self.spec.get("reexport"):
@@ -365,7 +372,7 @@ class Prog:
             for k in diff:
                 v = S._var(self.spec, k)
                 val = eval(S.var_value(self.spec, variant, k), {"OrderedDict": __import__("collections").OrderedDict,
-                                                                "PurePosixPath": __import__("pathlib").PurePosixPath, "datetime": __import__("datetime"), "math": __import__("math")})
+                                                                "PurePosixPath": __import__("pathlib").PurePosixPath, "datetime": __import__("datetime"), "math": __import__("math"), "pathlib": __import__("pathlib")})
                 for pk in (self.pkg, self.rpkg):
                     for mname, m in list(sys.modules.items()):
                         if mname.split(".")[0] == pk and hasattr(m, k) and not isinstance(getattr(m, k), types.ModuleType):
@@ -382,7 +389,7 @@ class Prog:
         f = S._fn(self.spec, e["fn"])
         m = self.mod(f["module"], ref=ref)
         d = self.w.refdds if ref else sys.modules["dds"]
-        ns = {"OrderedDict": __import__("collections").OrderedDict, "PurePosixPath": __import__("pathlib").PurePosixPath, "datetime": __import__("datetime"), "math": __import__("math")}
+        ns = {"OrderedDict": __import__("collections").OrderedDict, "PurePosixPath": __import__("pathlib").PurePosixPath, "datetime": __import__("datetime"), "math": __import__("math"), "pathlib": __import__("pathlib")}
         r = S.Renderer(self.spec, self.variant, self.pkg, self.xpkg)
         args = [eval(r.epv(a), ns) for a in e.get("args", [])]
         kwargs = {n: eval(r.epv(a), ns) for n, a in e.get("kwargs", [])}
